@@ -142,6 +142,33 @@ def arm_gate(s, case, flips):
     return out
 
 
+def arm_inplace(s, case):
+    """Properties put on API-built objects in place (obj.properties[k] = v, as the documentation does) are stored on
+    that table or column and on nothing else."""
+    from pydbml.classes import Column, Table
+    case = dict(case, arm='inplace')
+    out = []
+    want_db = build(s)
+    db = build(strip_props(s), allow_properties=True)       # every object constructed without a properties argument
+    for a, t in zip(s.tables, db.tables):
+        for k, v in a.props:
+            t.properties[k] = v
+        for ac, c in zip(a.columns, t.columns):
+            for k, v in ac.props:
+                c.properties[k] = v
+    got, want = extract(db), extract(want_db)
+    if got != want:
+        d = model.diff(want, got)
+        out.append(Viol('c15:inplace:content:' + model.path_class(d[0][0]), 'after obj.properties[k] = v on the objects that should carry properties, '
+                        f'the model differs from one built with those properties: {d[0]}', case))
+    elif db.dbml != want_db.dbml:
+        out.append(Viol('c15:inplace:dbml', 'in-place properties render differently from constructor-given ones:\n' + c02._first_diff(want_db.dbml, db.dbml), case))
+    fresh_t, fresh_c = Table('pbt_fresh'), Column('pbt_fresh', 'int')
+    if fresh_t.properties or fresh_c.properties:
+        out.append(Viol('c15:inplace:leak', f'a new Table / Column starts with properties it was never given: {fresh_t.properties} {fresh_c.properties}', case))
+    return out
+
+
 def arm_diff(s, style, case):
     """Enabling the option changes nothing for a document without properties."""
     text, _ = write(s, style)
@@ -178,6 +205,8 @@ def evaluate(c, ctx: Ctx, gen_name='strict'):
         viols += v
         ctx.record(thash('off' + text), True, ['arm:off'])
         viols += arm_gate(s, base, flips)
+        viols += arm_inplace(s, base)
+        ctx.record(thash('inplace' + text), sum(1 for t in s.tables if not t.props) >= 1 and len(s.tables) >= 2, ['arm:inplace'])
         ctx.record(thash('gate' + text + str(flips)), True, ['arm:gate'])
     s0 = strip_props(s)
     v, text = arm_diff(s0, style, dict(schema=model.to_json(s0), gen=gen_name))
@@ -210,6 +239,8 @@ def _nt_props(s):
 def replay(case):
     s = model.from_json(case['schema'])
     arm = case.get('arm')
+    if arm == 'inplace':
+        return arm_inplace(s, {k: v for k, v in case.items() if k != 'arm'})
     if arm == 'gate':
         return arm_gate(s, {k: v for k, v in case.items() if k not in ('arm', 'flips')}, case['flips'])
     from pydbml import PyDBML
